@@ -74,6 +74,8 @@ def one(src):
     finally:
         sh(f"git -C /repo worktree remove --force {wt}")
         shutil.rmtree(os.path.join(VERIF, "evidence", ".seed", sid), ignore_errors=True)
+        # a seeded tree may write hook-tagged bytecode next to third-party modules
+        sh('find /venv /root/.pyenv -name "*opt-jaxtyping*.pyc" -delete 2>/dev/null')
 
 
 if __name__ == "__main__":
